@@ -63,6 +63,8 @@ int getentropy(void *buf, size_t buflen) {
     return 0;
 }
 
+static void verif_fs_point_fwd(const char *path);
+
 static long raw_syscall6(long n, long a, long b, long c, long d, long e, long f) {
     long ret;
     register long r10 __asm__("r10") = d;
@@ -85,6 +87,8 @@ long syscall(long number, ...) {
         fill((void *)a, (size_t)b);
         return b;
     }
+    if (number == SYS_statx) verif_fs_point_fwd((const char *)b);
+    if (number == SYS_openat) verif_fs_point_fwd((const char *)b);
     long ret = raw_syscall6(number, a, b, c, d, e, f);
     if (ret < 0 && ret > -4096) {
         errno = (int)-ret;
@@ -92,3 +96,137 @@ long syscall(long number, ...) {
     }
     return ret;
 }
+
+/* ------------------------------------------------------------------------------------------------
+ * File-system call points (simulation seam for interleavings BETWEEN the file system calls of one
+ * operation, e.g. a loader that stats and then opens a file while another process replaces it).
+ *
+ * A thread arms a needle (substring of the path), the index of the matching call BEFORE which a
+ * callback fires once, and the callback. Calls by path that are counted: open/open64/openat/openat64,
+ * stat-family through statx/stat/lstat/fstatat. Without an armed needle every call goes straight
+ * through. Everything is thread-local: other simulated runs are not affected.
+ */
+#include <fcntl.h>
+#include <string.h>
+
+typedef void (*verif_fs_cb)(void);
+static __thread char fs_needle[256];
+static __thread int fs_armed = 0;
+static __thread int fs_fire_at = -1;
+static __thread int fs_count = 0;
+static __thread verif_fs_cb fs_cb = 0;
+
+void verif_fs_arm(const char *needle, int fire_at, verif_fs_cb cb) {
+    size_t n = strlen(needle);
+    if (n >= sizeof(fs_needle)) n = sizeof(fs_needle) - 1;
+    memcpy(fs_needle, needle, n);
+    fs_needle[n] = 0;
+    fs_fire_at = fire_at;
+    fs_cb = cb;
+    fs_count = 0;
+    fs_armed = 1;
+}
+
+int verif_fs_disarm(void) {
+    fs_armed = 0;
+    fs_cb = 0;
+    return fs_count;
+}
+
+static void fs_point(const char *path) {
+    if (!fs_armed || !path || !strstr(path, fs_needle)) return;
+    int n = fs_count++;
+    if (n == fs_fire_at && fs_cb) {
+        verif_fs_cb cb = fs_cb;
+        fs_cb = 0;
+        fs_armed = 0; /* the callback's own file system calls are not counted */
+        cb();
+        fs_armed = 1;
+    }
+}
+
+static long ret_errno(long ret) {
+    if (ret < 0 && ret > -4096) {
+        errno = (int)-ret;
+        return -1;
+    }
+    return ret;
+}
+
+static int needs_mode(int flags) {
+#ifdef O_TMPFILE
+    if ((flags & O_TMPFILE) == O_TMPFILE) return 1;
+#endif
+    return (flags & O_CREAT) != 0;
+}
+
+int open(const char *path, int flags, ...) {
+    mode_t mode = 0;
+    if (needs_mode(flags)) {
+        va_list ap;
+        va_start(ap, flags);
+        mode = (mode_t)va_arg(ap, int);
+        va_end(ap);
+    }
+    fs_point(path);
+    return (int)ret_errno(raw_syscall6(SYS_openat, AT_FDCWD, (long)path, flags, mode, 0, 0));
+}
+
+int open64(const char *path, int flags, ...) {
+    mode_t mode = 0;
+    if (needs_mode(flags)) {
+        va_list ap;
+        va_start(ap, flags);
+        mode = (mode_t)va_arg(ap, int);
+        va_end(ap);
+    }
+    fs_point(path);
+    return (int)ret_errno(raw_syscall6(SYS_openat, AT_FDCWD, (long)path, flags | O_LARGEFILE, mode, 0, 0));
+}
+
+int openat(int dirfd, const char *path, int flags, ...) {
+    mode_t mode = 0;
+    if (needs_mode(flags)) {
+        va_list ap;
+        va_start(ap, flags);
+        mode = (mode_t)va_arg(ap, int);
+        va_end(ap);
+    }
+    fs_point(path);
+    return (int)ret_errno(raw_syscall6(SYS_openat, dirfd, (long)path, flags, mode, 0, 0));
+}
+
+int openat64(int dirfd, const char *path, int flags, ...) {
+    mode_t mode = 0;
+    if (needs_mode(flags)) {
+        va_list ap;
+        va_start(ap, flags);
+        mode = (mode_t)va_arg(ap, int);
+        va_end(ap);
+    }
+    fs_point(path);
+    return (int)ret_errno(raw_syscall6(SYS_openat, dirfd, (long)path, flags | O_LARGEFILE, mode, 0, 0));
+}
+
+struct statx;
+int statx(int dirfd, const char *path, int flags, unsigned int mask, struct statx *buf) {
+    fs_point(path);
+    return (int)ret_errno(raw_syscall6(SYS_statx, dirfd, (long)path, flags, mask, (long)buf, 0));
+}
+
+static void verif_fs_point_fwd(const char *path) { fs_point(path); }
+
+struct stat;
+struct stat64;
+int fstatat(int dirfd, const char *path, struct stat *buf, int flags) {
+    fs_point(path);
+    return (int)ret_errno(raw_syscall6(SYS_newfstatat, dirfd, (long)path, (long)buf, flags, 0, 0));
+}
+int fstatat64(int dirfd, const char *path, struct stat64 *buf, int flags) {
+    fs_point(path);
+    return (int)ret_errno(raw_syscall6(SYS_newfstatat, dirfd, (long)path, (long)buf, flags, 0, 0));
+}
+int stat(const char *path, struct stat *buf) { return fstatat(AT_FDCWD, path, buf, 0); }
+int stat64(const char *path, struct stat64 *buf) { return fstatat64(AT_FDCWD, path, buf, 0); }
+int lstat(const char *path, struct stat *buf) { return fstatat(AT_FDCWD, path, buf, AT_SYMLINK_NOFOLLOW); }
+int lstat64(const char *path, struct stat64 *buf) { return fstatat64(AT_FDCWD, path, buf, AT_SYMLINK_NOFOLLOW); }
